@@ -3,10 +3,15 @@
     initial = () or (v), only meaningful for shape 3; variant (optional): 0 = repaired code,
     1 = before all three fixes, 2 = before the own-task and stale-initial-future fixes, 3 = before
     the stale-initial-future fix (corpus witnesses, model only).
+    shapes: 0..3 as in Async.v (0 with wrap 2: new_unsync + tracked refetch counter, what
+    LocalResource::new builds); 4: leptos_server ArcResource::new / Resource::new (wrap 1);
+    5: ArcOnceResource::new / OnceResource::new (wrap 1).
     events: (0 i v) write signal i, (1) refetch, (2 v) manual set Some(v), (3) notify,
             (4 f) complete future f, (5 t) poll task t (0 = node, 1 = dependent effect),
-            (6 picks) run until idle, (7) new awaiter, (8 a) poll awaiter a.
-    After each event: (value loading ready-tasks awaiters new-dependent-log futures-created). *)
+            (6 picks) run until idle, (7 sus) new awaiter (sus: under a Suspense boundary),
+            (8 a) poll awaiter a with a fresh waker.
+    After each event: (value loading ready-tasks awaiters new-dependent-log futures-created
+    suspense-tasks); a pending awaiter shows the invocations of its latest waker. *)
 From Coq Require Import List ZArith Bool Arith.
 From LV Require Import Base.Sexp Reactive.RxUtil Reactive.Async.
 Import ListNotations.
@@ -22,14 +27,14 @@ Definition dec_event (e : sexp) : option event :=
   | 4%Z => Some (Complete (as_nat (nth_s 1 e)))
   | 5%Z => Some (PollTask (as_nat (nth_s 1 e)))
   | 6%Z => Some (RunAll (as_nats (nth_s 1 e)))
-  | 7%Z => Some NewAwaiter
+  | 7%Z => Some (NewAwaiter (as_bool (nth_s 1 e)))
   | 8%Z => Some (PollAwaiter (as_nat (nth_s 1 e)))
   | _ => None
   end.
 
 Definition s_awaiter (a : astate) : sexp :=
   match a with
-  | APending w => Lst [Num 0; snat w]
+  | APending _ w => Lst [Num 0; snat w]
   | ADone v => Lst [Num 1; Num v]
   | APanic => Lst [Num 2]
   end.
@@ -38,7 +43,7 @@ Definition obs (c : cfg) (old : nat) (s : node) : sexp :=
   Lst [sopt Num (value s); sbool (loading s); snats (ready c s);
        Lst (map s_awaiter (awaiters s));
        Lst (map (sopt Num) (skipn old (dlog s)));
-       snat (length (futs s))].
+       snat (length (futs s)); snat (susp_held s)].
 
 Fixpoint trace (c : cfg) (s : node) (evs : list sexp) : list sexp * node :=
   match evs with
@@ -61,11 +66,16 @@ Fixpoint settle (c : cfg) (fuel : nat) (s : node) : node :=
 
 Definition run_C10 (x : sexp) : sexp :=
   let variant := as_Z (nth_s 5 x) in
-  let c := mkCfg (as_nat (nth_s 0 x)) (as_nat (nth_s 2 x))
+  let sh := as_nat (nth_s 0 x) in
+  let wrap := as_nat (nth_s 1 x) in
+  (* case shapes 4 (real ArcResource / Resource) and 5 (once-resource) map onto the model's
+     resource-like shape 3 and its [once] flag; shape 0 with wrap 2 is the LocalResource-like node *)
+  let c := mkCfg (match sh with 4%nat => 3%nat | 5%nat => 0%nat | n => n end) (as_nat (nth_s 2 x))
                  (negb (Z.eqb variant 1)) (negb (Z.eqb variant 2) && negb (Z.eqb variant 1))
-                 (Z.eqb variant 0) the_fetch in
+                 (Z.eqb variant 0)
+                 (Nat.eqb sh 0 && Nat.eqb wrap 2) (Nat.eqb sh 5) the_fetch in
   let s0 := init c (as_opt as_Z (nth_s 3 x)) in
   let '(t, s1) := trace c s0 (as_list (nth_s 4 x)) in
   let s2 := settle c 16 s1 in
-  let s3 := fold_left (fun s a => poll_awaiter a s) (seq 0 (length (awaiters s2))) s2 in
+  let s3 := fold_left (fun s a => poll_awaiter c a s) (seq 0 (length (awaiters s2))) s2 in
   Lst (obs c 0 s0 :: t ++ [obs c (length (dlog s1)) s3]).
